@@ -390,17 +390,30 @@ def metric_alphacdr():
 
 
 @heap
-def symdel_db():
-    import pyrepseq as prs
-
-    return prs.SymdelDB(["CAAA", "CDDD", "CADA", "CAAK", "CAAA"], 2)
+def db_ref_list():
+    return ["CAAA", "CDDD", "CADA", "CAAK", "CAAA"]
 
 
 @heap
-def lookup_db():
+def db_ref_list2():
+    return ["CAAA", "CDDD", "CADA", "CAAK", "CAAA"]
+
+
+@heap
+def symdel_db(H):
     import pyrepseq as prs
 
-    return prs.LookupDB(["CAAA", "CDDD", "CADA", "CAAK", "CAAA"])
+    return prs.SymdelDB(H["db_ref_list"], 2)
+
+
+@heap
+def lookup_db(H):
+    import pyrepseq as prs
+
+    return prs.LookupDB(H["db_ref_list2"])
+
+
+DEPENDS = {"symdel_db": ["db_ref_list"], "lookup_db": ["db_ref_list2"]}
 
 
 # =============================================================================================
@@ -1701,3 +1714,113 @@ def clustermap_split_annot_badshape(H):
 def default_metric_alpha(H):
     return [prs.get_default_metric_for_input_data(H["df_alpha_only"]).name, prs.pcDelta(H["df_alpha_only"], bins=H["bins_arr"]),
             prs.hierarchical_clustering(H["df_alpha_only"])]
+
+
+# =============================================================================================
+# the caller modifies a value it was handed back (its own object from then on).  Legal, and it must not
+# affect any later call: a function that hands out a cached / shared object turns these into polluters
+# =============================================================================================
+@op("background", io=True)
+def own_background_modified(H):
+    back, bins = prs.load_pcDelta_background()
+    back.iloc[:, :] = 0.0
+    bins[:] = 0
+    back2 = prs.load_pcDelta_background(return_bins=False)
+    back2.drop(back2.index[:3], inplace=True)
+    return None
+
+
+@op("kdtree")
+def own_search_results_modified(H):
+    r = prs.kdtree(H["seqs_list"], max_edits=1)
+    r.clear()
+    r2 = prs.symdel(H["seqs_list"], max_edits=2)
+    r2.append((99, 99, 99))
+    r3 = prs.hash_based(H["seqs_arr"], max_edits=1, output_type="ndarray")
+    r3[:] = 5
+    return None
+
+
+@op("db")
+def own_lookup_results_modified(H):
+    r = H["symdel_db"].lookup(["CAAF", "CCCC", "CAAA"])
+    r.reverse()
+    r.append((7, 7, 7))
+    r2 = H["lookup_db"].lookup(["CAAF", "CCCC", "CAAA"], max_edits=1)
+    del r2[:]
+    return None
+
+
+@op("pdist")
+def own_pdist_modified(H):
+    d = prs.pdist(H["seqs_list"])
+    d[:] = 7
+    c = prs.cdist(H["seqs_list"], H["seqs_list2"])
+    c[:] = 9
+    return None
+
+
+@op("hclust")
+def own_hclust_modified(H):
+    linkage, cluster = prs.hierarchical_clustering(H["seqs_list"])
+    linkage[:] = 0
+    cluster[:] = 0
+    m = prs.get_default_metric_for_input_data(H["seqs_list"])
+    m.name = "renamed by the caller"
+    return None
+
+
+@op("metric")
+def own_metric_results_modified(H):
+    a = H["metric_lev"].calc_cdist_matrix(H["seqs_list"], H["seqs_list2"])
+    a[:] = 0
+    b = H["metric_beta"].calc_pdist_vector(H["df_beta"])
+    b[:] = 0
+    return None
+
+
+@op("pcDelta")
+def own_pcDelta_modified(H):
+    a = prs.pcDelta(H["seqs_list"])
+    a[:] = -1.0
+    g = prs.pcDelta_grouped(H["df_cluster"], "epitope", "cdr3b", bins=H["bins_arr"])
+    g.iloc[:, :] = -1.0
+    return None
+
+
+@op("standardize")
+def own_standardized_modified(H):
+    out = prs.standardize_dataframe(H["df_raw"], suppress_warnings=True)
+    out.iloc[:, 0] = "changed"
+    out["extra"] = 1
+    return None
+
+
+@op("neighbors")
+def own_neighbor_sets_modified(H):
+    s = prs.next_nearest_neighbors("CAD", cb_hamming_nb, maxdistance=2)
+    s.clear()
+    p = prs.find_neighbor_pairs(H["seqs_arr"])
+    p.clear()
+    n = prs.calculate_neighbor_numbers(H["seqs_arr"], reference=H["ref_set"])
+    n[:] = 0
+    return None
+
+
+@op("colors", rand=True)
+def own_colors_modified(H):
+    c = pp.labels_to_colors_hls(H["df_cluster"]["epitope"])
+    c.clear()
+    t = pp.labels_to_colors_tableau(H["df_cluster"]["donor"])
+    t.reverse()
+    return None
+
+
+@op("subsample", rand=True)
+def own_subsample_modified(H):
+    idx, cnt = prs.subsample(H["counts_arr"], 9)
+    idx[:] = 0
+    cnt[:] = 0
+    d = prs.downsample(H["seqs_arr"], 3)
+    d[:] = "X"
+    return None
